@@ -93,4 +93,22 @@ theorem pick_spec (ch : Nib → PT) (ih : ∀ i b, 1 ≤ b → b ≤ (ch i).weig
       · simp only [hle, if_false]
         exact ihl _ (by omega)
 
+theorem owner_eq_ownerSpec (t : PT) (b : Nat) (hb : 1 ≤ b) (hw : b ≤ t.weight) : t.owner b = ownerSpec t.entries b := by
+  induction t generalizing b with
+  | none => simp [PT.weight] at hw; omega
+  | value v w =>
+    simp only [PT.weight] at hw
+    simp [PT.owner, PT.entries, ownerSpec, hw]
+  | short k c ih =>
+    simp only [PT.weight] at hw
+    have : ¬ b > c.weight := by omega
+    simp only [PT.owner, PT.entries, this, if_false, ownerSpec_prepend, ih b hb hw]
+  | branch ch ih =>
+    simp only [PT.owner, PT.entries]
+    rw [pick_spec ch ih allNib b hb]
+    cases PT.pick ch allNib b with
+    | none => rfl
+    | some r => rfl
+
+
 end Verif.Wmpt
